@@ -86,6 +86,15 @@ func gen(tier string) []proto.Item {
 				items = append(items, proto.Item{Scn: s, Class: fmt.Sprintf("%s/r%d-%d/delay-exceeds-timeout/silent-hop", v, r.first, r.last)})
 			}
 		}
+		if proto.Info(v).Kind == "sack" {
+			// the SYN-ACK of another connection to the same target port is read first: the probes still go out on the
+			// connection this run dialed, numbered from its own handshake
+			for _, d := range []int{3, 0} {
+				s := proto.Scn{Variant: v, First: 1, Last: 4, Dest: d, IPIDBase: 1000, EchoBase: 50, TimeoutMs: 300, DelayMs: 10}
+				s.SynAck = &simnet.SynAckSpec{Enabled: true, ISN: 0x99, AckNum: 0xfffffffe, SackPermitted: true, WrongFirst: true}
+				items = append(items, proto.Item{Scn: s, Class: fmt.Sprintf("%s/other-connections-synack-first/dest-%d", v, d)})
+			}
+		}
 		// non-initial state: the same configuration as second and third run of the process
 		s := proto.Scn{Variant: v, First: 1, Last: 4, Dest: 3, IPIDBase: 65530, EchoBase: 65533, TimeoutMs: 300, DelayMs: 10}
 		s2 := s
